@@ -316,7 +316,33 @@ def coherence(g, ir):
                 bad.append("CFG endpoint is a %s" % type(end).__name__)
             elif id(end) not in ids:
                 bad.append("CFG endpoint %s is not attached" % end.uuid)
+    # separately constructed objects never share their mutable parts (C04): attribute sets of expressions, section flags,
+    # AuxData maps, stored bytes -- whoever constructed them (the API or the loader)
+    seen = {}
+    for owner, what, obj in _mutable_parts(ir):
+        if id(obj) in seen and seen[id(obj)] is not owner:
+            bad.append("two objects share one %s object (%s)" % (what, type(obj).__name__))
+            break
+        seen[id(obj)] = owner
     return bad
+
+
+def _mutable_parts(ir):
+    yield ir, "aux_data", ir.aux_data
+    for m in ir.modules:
+        yield m, "aux_data", m.aux_data
+        for s in m.sections:
+            yield s, "flags", s.flags
+            for bi in s.byte_intervals:
+                yield bi, "contents", bi.contents
+                for e in bi.symbolic_expressions.values():
+                    yield e, "attributes", e.attributes
+
+
+def shared_between(ir_a, ir_b):
+    """mutable parts of two IRs (e.g. two loads of one file) are distinct objects"""
+    ida = {id(o): what for _, what, o in _mutable_parts(ir_a)}
+    return ["the two IRs share one %s object" % ida[id(o)] for _, what, o in _mutable_parts(ir_b) if id(o) in ida][:3]
 
 
 def identity_check(g, ir):
